@@ -27,6 +27,8 @@ TRUSTED_BASE = [
     "final working tableau generates the group of |0..0>'), C02.solver_complete / solver_complete_stabilizer (completeness: for every graph on >= 1 vertex without "
     "isolated vertex / every stabilizer target without product qubit the model returns and hfinal holds), C02.solve_correct (both together) and C02.validator_sound, "
     "on top of the C07/C01 tableau semantics and the C03 echelon/height theorems",
+    "C02.solve_sound_unconditional / solve_returns_correct remove hfinal (whenever the model returns, its circuit is correct) under the C11 theorem "
+    "InverseCircuitEndsInZero (what inverse_circuit returns is the zero tableau)",
     "the completeness theorems carry ONE explicit hypothesis, InverseCircuitComplete (inverse_circuit reaches |0..0> on every valid stabilizer tableau; property C11, "
     "proved on its own branch and discharged when the branches are merged)",
     "correspondence: the solver model is compared exactly (per-wire operation sequences) with the implementation on every generated target; "
